@@ -476,12 +476,15 @@ def run(ctx):
         if quick:
             allp = allp[:700]
         for a, b in allp:
-            add(a, b, 30 if quick else 60, "sweep")
+            add(a, b, 30 if quick else 20, "sweep")
     ctx.cov["jobs_candidate"] = sum(1 for j in jobs if j["kind"] == "candidate")
     ctx.cov["jobs_sweep"] = sum(1 for j in jobs if j["kind"] == "sweep")
     ctx.log("running %d jobs under the race detector" % len(jobs))
     out = run_jobs(ctx, hbin, jobs, "main", nproc=4 if quick else 6, timeout=900 if quick else 2400)
     ran = len(re.findall(r"VERIF-JOB-END ", out))
+    if os.environ.get("VERIF_C20_KEEP"):
+        with open(os.environ["VERIF_C20_KEEP"], "w") as fh:
+            fh.write(out)
     nodrv = sorted(set(re.findall(r"VERIF-JOB-NODRIVER \d+ (\S+ \S+)", out)))
     ctx.cov["traces_validated_against_impl"] = ran
     ctx.cov["pairs_executed_with_race_detector"] = ran
